@@ -147,22 +147,18 @@ m("c07-in-use-collision-ignored", "C07", SEQ, "                if in_use.value:\
 m("c07-leaf-collision-top-only", "C07", SEQ, 'return "clash" if r.raw_value.error else low', 'return "clash" if (r.raw_value.error and low < 0xffffff) else low')
 m("c07-no-terminate-when-none-found", "C07", SEQ, "    yield Terminate()\n    yield progress(message=\"Addressing complete\")", "    if available_addresses is not None and len(available_addresses) < 64:\n        yield Terminate()\n    yield progress(message=\"Addressing complete\")")
 m("c08-g1-error-unchecked", "C08", SEQ, "    if g1.raw_value.error:\n        raise DALISequenceError(\"Framing error reading groups eight to fifteen\")\n", "")
-m("c08-setgroups-skips-group-0-removal", "C08", SEQ, "        for i in existing - groups:\n            yield RemoveFromGroup(addr, i)", "        for i in existing - groups:\n            if i:\n                yield RemoveFromGroup(addr, i)")
 m("c09-latch-skipped-for-206", "C09", LOC, "        if use_latch and self.has_latch:\n            yield _EnableWriteMemory(addr)\n            yield _DTR0(addr, 2)\n            yield _WriteMemoryLocationNoReply(addr, 0xAA)\n            dtr0 = 3",
   "        if use_latch and self.has_latch and self.address != 206:\n            yield _EnableWriteMemory(addr)\n            yield _DTR0(addr, 2)\n            yield _WriteMemoryLocationNoReply(addr, 0xAA)\n            dtr0 = 3")
 m("c09-from-list-short-list", "C09", LOC, "                r = list_[location.address]\n            except IndexError:\n                raise MemoryLocationNotImplemented(f'List is missing memory location {str(location)}.')",
   "                r = list_[location.address]\n            except IndexError:\n                r = 0xff")
-m("c09-read-all-stops-one-early-on-255", "C09", LOC, "        for loc in range(start_address, last_address + 1):", "        for loc in range(start_address, min(last_address, 0xfd) + 1):")
 m("c10-echo-check-not-on-last-byte", "C10", LOC, "                if r.raw_value.as_integer != value:", "                if r.raw_value.as_integer != value and location is not cls.locations[-1]:")
-m("c10-dtr0-postcheck-ge", "C10", LOC, "            if r.raw_value.as_integer != dtr0:\n                raise MemoryWriteFailure(", "            if r.raw_value.as_integer > dtr0:\n                raise MemoryWriteFailure(")
 m("c10-relock-only-when-locked-before", "C10", LOC, "        if unlock_required:\n            yield _DTR0(addr, 2)\n            yield _WriteMemoryLocationNoReply(addr, 0xff)", "        if unlock_required and not force_unlock:\n            yield _DTR0(addr, 2)\n            yield _WriteMemoryLocationNoReply(addr, 0xff)")
 m("c13-shift-wrong-above-16-bits", "C13", DSEQ, "        value >>= 8 - resolution", "        value >>= (8 - resolution) if value < (1 << 24) else 0")
 m("c13-filter-md-hi-swapped", "C13", DSEQ, 'lo, md, hi = filter_value.to_bytes(3, "little")', 'lo, hi, md = filter_value.to_bytes(3, "little")')
 m("c13-scan-ignores-reset-state", "C13", DHLP, "                if (\n                    rsp.short_address_is_mask\n                    or rsp.reset_state\n                ):\n                    continue", "                if (\n                    rsp.short_address_is_mask\n                ):\n                    continue")
 m("c13-scheme-readback-skipped", "C13", DSEQ, "    rsp = yield QueryEventScheme(device=device, instance=instance)\n    return rsp", "    rsp = yield QueryEventScheme(device=device, instance=instance)\n    return rsp if pos else None")
 m("c14-limit-dtr-swapped", "C14", GSEQ, "    yield DTR0(tc_bytes[0])\n    yield DTR1(tc_bytes[1])\n    yield DTR2(what_limit)", "    yield DTR1(tc_bytes[0])\n    yield DTR0(tc_bytes[1])\n    yield DTR2(what_limit)")
-m("c14-no-activate-for-broadcast", "C14", GSEQ, "    yield SetTemporaryColourTemperature(address)\n    yield Activate(address)", "    yield SetTemporaryColourTemperature(address)\n    if getattr(address, 'address', 1) is not None or hasattr(address, 'group'):\n        yield Activate(address)")
-m("c14-query-lsb-msb-order", "C14", GSEQ, 'col_val = int.from_bytes((lsb.value, msb.value), "little")', 'col_val = int.from_bytes((lsb.value, msb.value), "little") if msb.value else lsb.value << 8')
+m("c14-no-activate-for-broadcast", "C14", GSEQ, "    yield SetTemporaryColourTemperature(address)\n    yield Activate(address)", "    yield SetTemporaryColourTemperature(address)\n    if type(address).__name__ != 'GearBroadcast':\n        yield Activate(address)")
 m("c16-luba-late-raw-kept", "C16", SER, "                while not self._queue_rx_raw_dali.empty():\n                    item = self._queue_rx_raw_dali.get_nowait()\n                    _LOG.critical(f\"LUBA RX DALI queue discarding: {item}\")", "                if qlen == 1:\n                    item = self._queue_rx_raw_dali.get_nowait()\n                    _LOG.critical(f\"LUBA RX DALI queue discarding: {item}\")")
 
 SEEDS = {"C07": 6000, "C08": 60000, "C09": 1500, "C10": 1500, "C13": 40000, "C14": 40000, "C15": 12000,
